@@ -208,3 +208,4 @@ def ig_rules(draw, max_rules=8, max_nt=4, reserved=False, terms=("a", "b")):
     )
     m = min(draw(st.sampled_from([5, 6, 4, 7, 8, 3, 2, 1])), max_rules)
     return draw(st.lists(rule, min_size=m, max_size=m, unique_by=repr))
+
